@@ -3,7 +3,7 @@
 E-enum over the alphabet the property names (ALL {-1,0,1} matrices up to 3x3) plus Near, D(seed), row
 scalings L3^m and global scales, times the configuration alphabets
     UPGrad / DualProj : P(m) (non-negative preference vectors) x (norm_eps, reg_eps) ladder,
-    MGDA              : max_iters in {1,2,3,5,20,100} x epsilon in {0, 1e-3},
+    MGDA              : max_iters in {1,2,3,5,20,100} x epsilon in {0, 1e-3} (and max_iters = 1000, epsilon = 0 on the canonical sublist),
     CAGrad            : c in {1, 1.5, 2, 10}.
 Oracle, per entry i of J . A(J), with s = sigma_max(J) from a float64 NumPy SVD:
     UPGrad/DualProj : (J x)_i >= -reg_eps s^2 w_i - SLACK     (w = the weights the aggregator's weighting returned;
@@ -39,13 +39,13 @@ SPEC = dict(
             "ALL ternary matrices of shapes <= 2x3, 3x1, 3x2 (1 614) and the canonical sublist of 3x3 (457 classes under "
             "row/column permutation and column sign) for UPGrad/DualProj/MGDA; CAGrad on the canonical sublist of every shape "
             "(612); Near; D(seed) 3x4,4x3; row scalings L3^m on all 2-row ternary matrices (CAGrad: canonical 2-row); global "
-            "scales {1e-3,1e6} on canonical/Near/D"
+            "scales {1e-3,1e6} on canonical/Near/D; MGDA max_iters=1000 on canonical matrices with m n <= 6"
         ),
         thorough=(
             "ALL 21 297 ternary matrices up to 3x3 for every aggregator and configuration; Near; D(seed) up to 5x4; row "
             "scalings L3^m on all ternary matrices up to 3x3 for UPGrad/DualProj/MGDA (MGDA on 3x3: max_iters=20, epsilon=0 on all, the default "
             "configuration on the canonical sublist) and on all shapes <= 3x2 plus canonical 3x3 for CAGrad; global scales {1e-3,1e6} on "
-            "canonical/Near/D"
+            "canonical/Near/D; MGDA max_iters=1000 on the canonical sublists of every shape"
         ),
     ),
     assumptions=[
@@ -111,6 +111,8 @@ def gen_cases(tier, seed):
                 else:
                     add("ternary", m, n, N, fam, "rows")
             add("canon", m, n, NC, fam, "gscale")
+            if fam == "mgda" and m >= 2 and (thorough or m * n <= 6):
+                add("canon", m, n, NC, fam, "long")  # a long budget makes the Frank-Wolfe bound tight (8 s^2/1002)
         # CAGrad (7 ms per call): quick tier on the canonical sublist only
         if thorough:
             add("ternary", m, n, N, "cagrad", "base")
@@ -153,7 +155,7 @@ def _matrices(case):
 def _variants(J0, mode):
     """The (label, matrix) variants of one alphabet matrix for a mode."""
     m = J0.shape[0]
-    if mode == "base":
+    if mode in ("base", "long"):
         return [("1", J0)]
     if mode == "gscale":
         return [(f"t={t:g}", J0 * t) for t in GSCALES]
@@ -177,6 +179,8 @@ def _configs(fam, mode, m):
             return [("mgda", it, ep) for it in MGDA_ITERS for ep in MGDA_EPS]
         if mode == "rows-fw20":
             return [("mgda", 20, 0.0)]
+        if mode == "long":
+            return [("mgda", 1000, 0.0)]
         return [("mgda", 20, 0.0), ("mgda", 100, 1e-3)] if mode == "rows" else [("mgda", 5, 0.0), ("mgda", 100, 0.0), ("mgda", 100, 1e-3)]
     if mode == "base":
         return [("cagrad", c) for c in CAGRAD_C]
